@@ -8,8 +8,8 @@ LEAN_PROPS = "Dashu.Props.C10"
 LEAN_AUDIT = "Dashu.Audit.C10"
 USES_GEN = True
 READY = True
-GEN_PROPS = ["Dashu.Props.GenRound"]
-GEN_AUDIT = ["Dashu.Audit.GenRound"]
+GEN_PROPS = ["Dashu.Props.GenRound", "Dashu.Props.C10Est"]
+GEN_AUDIT = ["Dashu.Audit.GenRound", "Dashu.Audit.C10Est"]
 
 BASES = [2, 3, 10, 16, 36]
 MODES = "ZAUDEH"
@@ -227,12 +227,13 @@ RULE = ("primitives: the complete grid integer {-2..2} x fraction {0,+-1,+-(h-1)
         "random 64..330-bit ones with remainders {0,1,d/2-1,d/2,d/2+1,d-1}. Non-trivial := non-zero low part / fractional digits "
         "present; distinct := distinct (op,args).")
 REFINED = ["Round::round_low_part x6 (regenerated, Props/GenRound)", "Round::round_fract", "Round::round_ratio",
-           "utils::split_digits / split_digits_ref (base-10, power-of-two and generic paths)", "utils::digit_len",
+           "utils::split_digits / split_digits_ref (base-10, power-of-two and generic paths)",
+           "utils::shl_digits / shl_digits_in_place / shr_digits / shr_ref (base-2, base-10, power-of-two and generic paths)",
+           "utils::digit_len",
            "Repr::normalize", "Context::repr_round / repr_round_ref", "FBig::with_precision",
            "FBig::trunc/floor/ceil/round/fract/split_at_point/to_int", "Repr::to_int",
            "rational Repr::trunc/floor/ceil/round/fract/split_at_point"]
-FRONTIER = ["utils::shl_digits / shr_digits per-base fast paths (modelled as *B^k and truncating /B^k)",
-            "f32 estimates digits_ub / smaller_than_one / round_fract coarse test: parameters with enclosure hypotheses "
+FRONTIER = ["f32 estimates digits_ub / smaller_than_one / round_fract coarse test: parameters with enclosure hypotheses "
             "(the driver's bit-exact replica is checked against the hypotheses on every operand)"]
 EXPLANATION = ("Lean theorems, for every base >= 2, every precision and all integers: the regenerated six mode tables composed with the "
                "exact half comparison (round_fract, round_ratio) return the adjustment the mode's definition names; repr_round / "
@@ -241,7 +242,11 @@ EXPLANATION = ("Lean theorems, for every base >= 2, every precision and all inte
                "satisfying its enclosure hypothesis (the model mirrors /repo after fix f9ab1b6 of split_at_point_internal, found here: "
                "0.0099 at 2 digits rounded to 1); RBig/Relaxed trunc/floor/ceil/round/fract by quotient and remainder. Model tied to "
                "/repo by the regenerated tables and by differential execution.")
-ASSUMPTIONS = ["f32 log2 estimates satisfy their enclosure hypotheses (checked on every driven operand, not proved for libm's log2f)",
+ASSUMPTIONS = ["f32 digit estimate: digits <= digits_ub is PROVED (Props/C10Est, over the reals) from: (A) log2f at most one ulp too small "
+               "(log2 x <= next_up(log2f x); for n >= 2^24 plus the IEEE grid fact next_up(fl(est+s)) >= next_up(est)+s), (B) the single "
+               "f32 * or / is a monotone rounding fixing integers <= 2^24, (C) LOG10_2 >= log10 2 and 0 < log2_bounds(B).0 <= log2 B; "
+               "(A)-(C) themselves are assumptions about IEEE binary32 / libm, and the driver additionally checks the resulting "
+               "enclosure on every driven operand",
                "IBig/UBig kernels (mul, div_rem, pow, shifts) at their specification (C01/C02)"]
 LEVEL_TEXT = ("Machine-checked Lean 4 theorems over all integers, bases, precisions and modes for the rounding primitives (on top of the "
               "mode tables regenerated from float/src/round.rs at every run), repr_round/with_precision (rounding contract over Rat) and "
